@@ -733,3 +733,140 @@ Section TtlChannels.
     rewrite (ttl_raw_terminated o1 o1 ls d Hl Hok), (ttl_raw_terminated o2 o2 ls d Hl Hok). reflexivity.
   Qed.
 End TtlChannels.
+
+(** *** several Turtle files: NOT a partition of one document.
+
+    [MultiBigTtlTriplesYielder] builds one fresh [BigTtlTriplesYielder] per
+    file: prefixes, base and an open statement do not carry over, and the
+    end-of-input check applies to every file.  What the multi-file channel
+    delivers is the concatenation of the files read as documents of their own
+    ([ttl_files_stream]); it differs from the single raw string as soon as a
+    file relies on a directive of an earlier one ([ttl_partition_refuted]). *)
+Section TtlFiles.
+  Variable pyfloat : str -> option bool.
+  Variable read_nt : list str -> rd.
+  Variable gunzip unxz : str -> option str.
+  Variable unzip : str -> option (list (str * str)).
+  Variable rdf_parse : str -> str -> option (list rtriple).
+
+  Notation chan := (channel pyfloat read_nt ttl_reader gunzip unxz unzip rdf_parse).
+
+  Lemma ttl_chan_files o cm stored :
+    cm_plain cm ->
+    chan o TTL cm (SFiles stored)
+    = multi_from pyfloat read_nt ttl_reader gunzip unxz rdf_parse 0 (o 0) TTL (Str "BigTtlTriplesYielder") cm stored.
+  Proof. intros [-> | [-> | ->]]; reflexivity. Qed.
+
+  Lemma ttl_multi_from_stream i orcs cm files :
+    rd_stream (multi_from pyfloat read_nt ttl_reader gunzip unxz rdf_parse i orcs TTL (Str "BigTtlTriplesYielder") cm files)
+    = sconcat (map (fun st => rd_stream (with_lines ttl_reader (lines_of gunzip unxz false cm st))) files).
+  Proof.
+    revert i. induction files as [|f fs IH]; intros i; [reflexivity|].
+    cbn [multi_from map sconcat fold_right]. rewrite rd_stream_app, IH. reflexivity.
+  Qed.
+
+  Theorem ttl_files_stream o cm lss stored :
+    cm_plain cm -> Forall (Forall line_ok) lss ->
+    Forall2 (stored_as gunzip unxz cm) (map render_lines lss) stored ->
+    rd_stream (chan o TTL cm (SFiles stored))
+    = sconcat (map (fun ls => rd_stream (ttl_reader (filter nonblank ls))) lss).
+  Proof.
+    intros Hcm Hok Hst. rewrite (ttl_chan_files o cm stored Hcm), ttl_multi_from_stream.
+    revert stored Hst. induction Hok as [|ls lss Hls _ IH]; intros stored H2; inversion H2; subst; [reflexivity|].
+    cbn [map sconcat fold_right]. rewrite (lines_of_stored gunzip unxz cm ls _ Hls H1). cbn [with_lines].
+    rewrite ttl_reader_nl_filter. f_equal. apply IH. assumption.
+  Qed.
+End TtlFiles.
+
+(** ** E. N-Triples against Turtle, both readers plugged in *)
+
+From Shexer Require Import Model.SerialShexc Proofs.ShexKeys Proofs.EndToEnd Proofs.EndToEnd2 Proofs.EndToEnd3
+     Model.FreqInst Proofs.Bin64Round.
+
+Section CrossFormat.
+  Variable pyfloat : str -> option bool.
+  Variable allow : bool.
+  Variable gunzip unxz : str -> option str.
+  Variable unzip : str -> option (list (str * str)).
+  Variable rdf_parse : str -> str -> option (list rtriple).
+
+  (** the channel model with the two proved readers: nothing is left abstract
+      on the N-Triples, TSV and TURTLE_ITER channels but the codecs *)
+  Definition closed_passes :=
+    passes pyfloat (nt_reader allow) ttl_reader gunzip unxz unzip rdf_parse.
+
+  Definition nt_run (fa : FreqAlg) c thr (o1 o2 : porc) ts :=
+    run_over_passes fa c thr (closed_passes o1 o2 (Str "nt") None (SRaw (NtSyntax.nt_doc ts))).
+
+  Definition ttl_run (fa : FreqAlg) c thr (o1 o2 : porc) ls :=
+    run_over_passes fa c thr (closed_passes o1 o2 TTL None (SRaw (TtlSyntax.render_doc ls))).
+
+  (** same triples up to lexical forms, same order: same shapes (same
+      outcome of the pipeline, errors included) *)
+  Theorem nt_vs_turtle_iter fa c thr (o1 o2 o1' o2' : porc) ts ls d G :
+    Forall nt_ok_case ts ->
+    TtlSyntax.lays_out ls d -> TtlDomain.C07_dom ls d = true -> TtlSyntax.sem d = Some G ->
+    map erase_lex G = nt_graph ts ->
+    nt_run fa c thr o1 o2 ts = ttl_run fa c thr o1' o2' ls.
+  Proof.
+    intros Hnt Hl Hd Hs HE. unfold nt_run, ttl_run, closed_passes.
+    rewrite (nt_text_to_graph pyfloat allow ttl_reader gunzip unxz unzip rdf_parse fa c thr o1 o2 ts Hnt).
+    rewrite (turtle_iter_text_to_graph pyfloat (nt_reader allow) gunzip unxz unzip rdf_parse fa c thr o1' o2' ls d G Hl Hd Hs).
+    f_equal. rewrite <- HE. apply run_shapes_erase_lex.
+  Qed.
+
+  (** same triples in a different order: with C09 (no instance cap, empty
+      shapes kept, valid input) both extractions succeed and yield the same
+      classes, shape names, instance counts and key sets *)
+  Theorem nt_vs_turtle_iter_permuted fa c thr (o1 o2 o1' o2' : porc) ts ls d G :
+    Forall nt_ok_case ts ->
+    TtlSyntax.lays_out ls d -> TtlDomain.C07_dom ls d = true -> TtlSyntax.sem d = Some G ->
+    Permutation (nt_graph ts) (map erase_lex G) ->
+    (r_cap c <= 0)%Z -> r_remove_empty c = false -> valid_input c (nt_graph ts) = true ->
+    exists ns shapes shapes',
+      nt_run fa c thr o1 o2 ts = Some (inl (ns, shapes)) /\
+      ttl_run fa c thr o1' o2' ls = Some (inl (ns, shapes')) /\
+      (forall cls, In cls (map sh_class shapes) <-> In cls (map sh_class shapes')) /\
+      forall sh sh', In sh shapes -> In sh' shapes' -> sh_class sh = sh_class sh' ->
+        sh_name sh = sh_name sh' /\ sh_n sh = sh_n sh' /\
+        forall key, In key (map (skey (scfg_of c ns)) (sh_stmts sh)) <->
+                    In key (map (skey (scfg_of c ns)) (sh_stmts sh')).
+  Proof.
+    intros Hnt Hl Hd Hs HP Hcap Hre Hv.
+    destruct (e2e_keys_perm_valid fa c thr _ _ Hcap Hre HP Hv) as (ns & shapes & shapes' & R1 & R2 & A & B).
+    exists ns, shapes, shapes'. split; [|split; [|split; [exact A | exact B]]].
+    - unfold nt_run, closed_passes.
+      rewrite (nt_text_to_graph pyfloat allow ttl_reader gunzip unxz unzip rdf_parse fa c thr o1 o2 ts Hnt), R1. reflexivity.
+    - unfold ttl_run, closed_passes.
+      rewrite (turtle_iter_text_to_graph pyfloat (nt_reader allow) gunzip unxz unzip rdf_parse fa c thr o1' o2' ls d G Hl Hd Hs).
+      rewrite <- (run_shapes_erase_lex fa c thr G), R2. reflexivity.
+  Qed.
+
+  (** binary64 frequencies, ANY setting of remove_empty_shapes, thresholds in
+      [0, 1], fewer than 2^53 statements *)
+  Theorem nt_vs_turtle_iter_permuted_any c thr (o1 o2 o1' o2' : porc) ts ls d G :
+    Forall nt_ok_case ts ->
+    TtlSyntax.lays_out ls d -> TtlDomain.C07_dom ls d = true -> TtlSyntax.sem d = Some G ->
+    Permutation (nt_graph ts) (map erase_lex G) ->
+    (r_cap c <= 0)%Z -> valid_input_le1 c (nt_graph ts) = true ->
+    wf_frac thr -> fle BAlg thr (fone BAlg) = true -> (N.of_nat (List.length ts) < 2 ^ 53)%N ->
+    exists ns shapes shapes',
+      nt_run BAlg c thr o1 o2 ts = Some (inl (ns, shapes)) /\
+      ttl_run BAlg c thr o1' o2' ls = Some (inl (ns, shapes')) /\
+      (forall cls, In cls (map sh_class shapes) <-> In cls (map sh_class shapes')) /\
+      forall sh sh', In sh shapes -> In sh' shapes' -> sh_class sh = sh_class sh' ->
+        sh_name sh = sh_name sh' /\ sh_n sh = sh_n sh' /\
+        forall key, In key (map (skey (scfg_of c ns)) (sh_stmts sh)) <->
+                    In key (map (skey (scfg_of c ns)) (sh_stmts sh')).
+  Proof.
+    intros Hnt Hl Hd Hs HP Hcap Hv Hw Hle Hn.
+    assert (Hn' : (N.of_nat (List.length (nt_graph ts)) < 2 ^ 53)%N) by (unfold nt_graph; rewrite map_length; exact Hn).
+    destruct (e2e_keys_perm_valid_any c thr _ _ Hcap HP Hv Hw Hle Hn') as (ns & shapes & shapes' & R1 & R2 & A & B).
+    exists ns, shapes, shapes'. split; [|split; [|split; [exact A | exact B]]].
+    - unfold nt_run, closed_passes.
+      rewrite (nt_text_to_graph pyfloat allow ttl_reader gunzip unxz unzip rdf_parse BAlg c thr o1 o2 ts Hnt), R1. reflexivity.
+    - unfold ttl_run, closed_passes.
+      rewrite (turtle_iter_text_to_graph pyfloat (nt_reader allow) gunzip unxz unzip rdf_parse BAlg c thr o1' o2' ls d G Hl Hd Hs).
+      rewrite <- (run_shapes_erase_lex BAlg c thr G), R2. reflexivity.
+  Qed.
+End CrossFormat.
